@@ -1,8 +1,9 @@
 """C03 — Range header resolution: correspondence with C03/Model.v + property oracle."""
 import itertools
+import os
 import re
 
-from . import core
+from . import core, util
 
 PID = "C03"
 MANIFEST = dict(text="Theorems range_canonical / range_denotation / range_classification / number_meaning about the Gallina model of parse_range "
@@ -80,6 +81,42 @@ def cases(tier, rng):
         for tmpl in ("bytes=%s-", "bytes=-%s", "bytes=0-%s", "bytes=0-1,%s-", "bytes=9-1,0-%s"):
             yield "huge-number", ["range", tmpl % ("1" * nd), 10]
             yield "huge-number", ["range", tmpl % ("0" * nd), 10]
+    # volume: range sets of hundreds and thousands of specs (every one of them counts)
+    n_vol = 24 if tier == "quick" else 120
+    for i in range(n_vol):
+        k = rng.choice([200, 255, 256, 257, 300, 512, 1000, 3000])
+        size = rng.choice([100, 5000, 10 ** 6])
+        parts = []
+        for j in range(k):
+            a = rng.randrange(0, size)
+            w = rng.choice([0, 1, 3, size // 50 + 1])
+            parts.append("%d-%d" % (a, a + w))
+        tail = rng.choice(["", "", ",%d-" % (size - 1), ",-1", ",%d-" % size, ",5-4", ",%d-%d" % (size - 2, size + 5), ",-", ",x"])
+        yield "volume", ["range", "bytes=" + ",".join(parts) + tail, size]
+    # the same resolution observed where a client sees it: status, Content-Range and part list of a FileResponse, both
+    # interfaces; the header as the octets a server hands over (Latin-1 text in WSGI, bytes in ASGI)
+    octets = ["0", "1", "2", "3", "9", "-", "-", ",", ", ", " ", "x", "=", "\xe9", "\xd9\xa3", "\xd9\xa5", "\xef\xbc\x91", "\xb2", "\xa0", "\x85", "\xff"]
+    n_resp = 1500 if tier == "quick" else 12000
+    for i in range(n_resp):
+        size = rng.choice([0, 1, 5, 10, 40, 400, 5000])
+        form = rng.random()
+        if form < 0.5:
+            k = rng.randrange(1, 6)
+            parts = []
+            for _ in range(k):
+                a = rng.randrange(0, max(2, size + 3))
+                f2 = rng.random()
+                parts.append("%d-%d" % (a, a + rng.randrange(0, max(2, size // 3))) if f2 < 0.6 else ("%d-" % a if f2 < 0.8 else "-%d" % rng.randrange(0, size + 3)))
+            h = "bytes=" + rng.choice([",", ", "]).join(parts)
+            if rng.random() < 0.3:
+                j = rng.randrange(6, len(h) + 1)
+                h = h[:j] + rng.choice(octets[12:]) + h[j:]
+        elif form < 0.9:
+            h = rng.choice(["bytes=", "bytes=", "bytes=", "bytes", "Bytes=", ""]) + "".join(rng.choice(octets) for _ in range(rng.randrange(0, 10)))
+        else:
+            d = rng.choice(["\xd9\xa3", "\xef\xbc\x91", "\xe0\xa5\xa7", "\xb2", "\xb9"])
+            h = rng.choice(["bytes=%s-", "bytes=%s-%s", "bytes=-%s", "bytes=0-%s", "bytes=0-1,%s-"]).replace("%s", d)
+        yield "through-response", ["resp", ("wsgi", "asgi")[i % 2], h, size]
     step = 0x1000
     for lo in range(0, 0x110000, step):
         yield "digit-table", ["digits", lo, step]
@@ -90,12 +127,92 @@ def search_cases(tier, rng, mism):
 
 
 _digit = re.compile(r"\d")
+_cr = re.compile(r"^bytes (\d+)-(\d+)/(\d+)$")
+_files = {}
+
+
+def ENCODE(case):
+    # a FileResponse resolves the header it is handed with parse_range: the model's answer is that of the plain call
+    if case[0] == "resp":
+        return core.enc_line(["range", case[2], case[3]])
+    return core.enc_line(case)
+
+
+def _file(size):
+    p = _files.get(size)
+    if p is None:
+        p = os.path.join(util.tmpdir(), "c03-%d.bin" % size)
+        with open(p, "wb") as f:
+            f.write(bytes(i % 251 for i in range(size)))
+        _files[size] = p
+    return p
+
+
+def _ranges_of(status, headers, body, size):
+    """what a client learns from the answer: the outcome in parse_range's vocabulary"""
+    hd = {}
+    for k, v in headers:
+        hd.setdefault(k.lower(), []).append(v)
+    if status == 400:
+        return ["400"]
+    if status == 416:
+        if hd.get("content-range") != ["*/%d" % size]:
+            return ["416-bad-headers", str(sorted(hd.items()))]
+        return ["416"]
+    if status != 206:
+        return ["status", status]
+    ctype = (hd.get("content-type") or [""])[0]
+    if ctype.startswith("multipart/byteranges"):
+        out = []
+        for line in body.split(b"\n"):
+            if line.lower().startswith(b"content-range:"):
+                m = _cr.match(line.split(b":", 1)[1].strip().decode("latin-1"))
+                if not m or int(m.group(3)) != size:
+                    return ["bad-part-header", line.decode("latin-1")]
+                out.append([int(m.group(1)), int(m.group(2)) + 1])
+        return ["ok"] + out
+    crs = hd.get("content-range") or []
+    m = _cr.match(crs[0]) if len(crs) == 1 else None
+    if not m or int(m.group(3)) != size:
+        return ["bad-content-range", str(crs)]
+    a, b = int(m.group(1)), int(m.group(2)) + 1
+    if body != bytes(i % 251 for i in range(a, b)):
+        return ["bad-body", a, b]
+    return ["ok", [a, b]]
+
+
+def impl_resp(case):
+    _, iface, header, size = case
+    path = _file(size)
+    if iface == "wsgi":
+        import baize.wsgi.responses as W
+        env = util.wsgi_environ("GET")
+        env["HTTP_RANGE"] = header
+        starts, items, exc = util.call_wsgi(W.FileResponse(path, content_type="application/x-c03"), env)
+        if exc is not None:
+            return [["exc", type(exc).__name__]]
+        if len(starts) != 1:
+            return [["protocol", len(starts)]]
+        status, headers = starts[0]
+        return [_ranges_of(int(status.split(" ")[0]), [(k, v) for k, v in headers], b"".join(x for _, x in items), size)]
+    import baize.asgi.responses as A
+    scope = util.http_scope("GET", headers=[(b"range", header.encode("latin-1"))])
+    sent, exc = util.call_asgi(A.FileResponse(path, content_type="application/x-c03"), scope)
+    if exc is not None:
+        return [["exc", type(exc).__name__]]
+    if not sent or sent[0]["type"] != "http.response.start":
+        return [["nostart"]]
+    body = b"".join(m.get("body", b"") for m in sent[1:])
+    headers = [(k.decode("latin-1"), v.decode("latin-1")) for k, v in sent[0].get("headers", [])]
+    return [_ranges_of(int(sent[0]["status"]), headers, body, size)]
 
 
 def impl(case):
     from baize.responses import FileResponseMixin
     from baize.exceptions import HTTPException
     op = case[0]
+    if op == "resp":
+        return impl_resp(case)
     if op == "digits":
         lo, n = case[1], case[2]
         out = []
@@ -177,6 +294,9 @@ def union(intervals):
 
 
 def oracle(case, obs):
+    if case[0] == "resp":
+        r = oracle(["range", case[2], case[3]], obs)
+        return r and (r[0] + "-through-" + case[1], case[1] + " FileResponse: " + r[1])
     if case[0] != "range":
         return None
     header, size = case[1], case[2]
@@ -214,6 +334,8 @@ def oracle(case, obs):
 
 
 def nontrivial(case, obs):
+    if case[0] == "resp":
+        return nontrivial(["range", case[2], case[3]], obs)
     if case[0] != "range":
         return True
     h = case[1]
@@ -221,6 +343,11 @@ def nontrivial(case, obs):
 
 
 def shrink(case):
+    if case[0] == "resp":
+        for c in shrink(["range", case[2], case[3]]):
+            if c[2] <= 5000:
+                yield ["resp", case[1], c[1], c[2]]
+        return
     if case[0] != "range":
         return
     h, size = case[1], case[2]
